@@ -313,25 +313,6 @@ Fixpoint s_exec (st : store) (b : sbus) (ops : list op) : store * sbus :=
   | o :: r => let '(_, st', b') := s_step st b o in s_exec st' b' r
   end.
 
-(* ---------- the part of the history space on which the implementation meets S (see Refuted/C17.v for the rest) ----------
-   get / iter_element(_items) only when they cannot meet a placeholder and no LRU order exists to disturb;
-   sort_values only when max_persist is absent or not smaller than the Bus; the backing file is never put back with the
-   recorded mtime. *)
-Definition s_dom_op (st : store) (b : sbus) (o : op) : bool :=
-  match o with
-  | OGet l => negb (mem l (sb_labels b)) || (mem l (sb_cache b) && negb (is_some (sb_mp b)))
-  | OIterElem | OIterItems => negb (is_some (sb_mp b)) && forallb (fun l => mem l (sb_cache b)) (sb_labels b)
-  | OSortValues _ _ => match sb_mp b with None => true | Some k => Z.of_nat (length (sb_labels b)) <=? k end
-  | OFile f => negb (option_eqb Z.eqb f (st_recorded st))
-  | _ => true
-  end.
-
-Fixpoint s_dom (st : store) (b : sbus) (ops : list op) : bool :=
-  match ops with
-  | [] => true
-  | o :: r => s_dom_op st b o && (let '(_, st', b') := s_step st b o in s_dom st' b' r)
-  end.
-
 Definition trace_eqb (a b : list (obs * list bool)) : bool :=
   list_eqb (pair_eqb obs_eqb (list_eqb Bool.eqb)) a b.
 
